@@ -416,6 +416,11 @@ pub struct AuditFrame {
     pub has_upvalues: bool,
     /// heap index of the live closure object whose upvalue vector the frame points into
     pub closure: Option<usize>,
+    /// CallFrame::num_registers (the window `collect` scans)
+    pub frame_num_registers: usize,
+    /// num_registers of the bytecode function the frame runs, read from the heap object
+    /// (`frame.function()` is a Function, or a Closure whose inner function is looked up)
+    pub function_num_registers: Option<usize>,
 }
 
 impl crate::vm::VM {
@@ -444,7 +449,21 @@ impl crate::vm::VM {
                     idx += 1;
                 }
             }
-            out.push(AuditFrame { function: f.function().index(), has_upvalues, closure });
+            let function_num_registers = match self.heap.get(f.function()).map(|o| &o.kind) {
+                Some(ObjectKind::Function(func)) => Some(func.function.num_registers as usize),
+                Some(ObjectKind::Closure(c)) => match self.heap.get(c.function).map(|o| &o.kind) {
+                    Some(ObjectKind::Function(func)) => Some(func.function.num_registers as usize),
+                    _ => None,
+                },
+                _ => None,
+            };
+            out.push(AuditFrame {
+                function: f.function().index(),
+                has_upvalues,
+                closure,
+                frame_num_registers: f.num_registers as usize,
+                function_num_registers,
+            });
         }
         out
     }
